@@ -75,6 +75,8 @@ def gen_program(rng: random.Random, futures=False, crash=True):
     prog["end"] = None if rng.random() < 0.35 else rng.choice(sc["ends"])
     if crash and rng.random() < 0.3:
         crash_window(rng, prog, sc, nk)
+    if rng.random() < 0.3:
+        relay_chain(rng, prog, sc)
     if rng.random() < 0.3 and prog["defs"]:
         # held events: created before the run, released by a handler mid-run for an instant far in the
         # future; a later-created event for the same instant must come after them
@@ -93,6 +95,32 @@ def gen_program(rng: random.Random, futures=False, crash=True):
     prog["loop"] = rng.choice(["fast", "slow"])
     prog["times"] = sc["times"]
     return prog
+
+
+def relay_chain(rng, prog, sc):
+    """packets passed on hop by hop with the hop count / TTL kept in the event's own metadata (the handlers
+    are stateless: they stamp the event they were handed and forward a copy); the first packets are scheduled
+    before the run, some of them with a hop count already set"""
+    ents = prog["ents"]
+    for j in range(rng.randint(1, 2)):
+        kind = 30 + j
+        limit = rng.randint(1, 4)
+        for e in range(ents):
+            acts = [["RL", rng.randrange(ents), kind, rng.choice(sc["nd"]), limit, False]]
+            if rng.random() < 0.3:
+                acts.append(["RL", rng.randrange(ents), kind, rng.choice(sc["nd"]), rng.randint(1, limit), rng.random() < 0.3])
+            gen = rng.random() < 0.3
+            segs = [{"acts": acts, "term": ["Z"]}]
+            if gen:
+                segs = [{"acts": [], "term": ["Y", rng.choice(sc["fd"])]}] + segs
+            prog["defs"].append({"ent": e, "kind": kind, "gen": gen, "segs": segs})
+        for _ in range(rng.randint(1, 2)):
+            p = {"tgt": rng.randrange(ents), "kind": kind, "time": rng.choice(sc["times"]), "daemon": False, "hook": 0,
+                 "cancelled": False}
+            if rng.random() < 0.3:
+                p["hops"] = rng.randint(1, limit)
+            prog["pre"].append(p)
+    rng.shuffle(prog["pre"])
 
 
 def crash_window(rng, prog, sc, nk):
@@ -177,7 +205,8 @@ class C01(core.Property):
             "after the window and falling due inside it, at the restore instant or after it: an event is exempt from delivery only if "
             "its target is down in the stretch of the trace in which it falls due); end_time none / on a tie value / between events; fast loop or "
             "instrumented loop (control attached); a tenth of the programs (stateless ones) are run, reset() and run again, the second "
-            "run being the one compared and judged. Non-trivial = at least two deliveries share a timestamp or an event is "
+            "run being the one compared and judged; relay chains whose hop counter lives in the event metadata (handlers stamp the "
+            "delivered event and forward a copy); a run that makes more than 1500 deliveries is cut and judged as it stands. Non-trivial = at least two deliveries share a timestamp or an event is "
             "cancelled/stale/gated; distinct = distinct (program, log)")
     trusted_base = [
         "hv/engine_harness.py scripted entities and trace recorder; tags = harness creation counter",
